@@ -126,6 +126,7 @@ type claimRec struct {
 type blockOps struct {
 	Reqs     world.Requests
 	Absent   map[string]bool
+	NilVote  map[string]bool
 	Evidence []abci.Misbehavior
 	Dt       time.Duration
 	Desc     []string
@@ -153,6 +154,7 @@ type lockHist struct {
 	nextCID   uint64
 	delivered []world.SysTx
 	absentRun map[int]int // validator -> remaining blocks of absence
+	nilRun    map[int]int // validator -> remaining blocks of nil precommits (present in the round, not voting for the block)
 	opsLog    []string
 	pre, post *world.Snap
 	blk       *world.Block
@@ -348,7 +350,7 @@ func (h *lockHist) unlockAmount(vi int, tok common.Address, already *big.Int) *b
 
 // gen produces the operations of the next block.
 func (h *lockHist) gen() *blockOps {
-	o := &blockOps{Absent: map[string]bool{}}
+	o := &blockOps{Absent: map[string]bool{}, NilVote: map[string]bool{}}
 	w := h.cfg.W
 	roll := func(p int) bool { return p > 0 && h.r.Intn(100) < p }
 	adv := h.cfg.Adversarial
@@ -580,6 +582,22 @@ func (h *lockHist) gen() *blockOps {
 			h.absentRun[vi] = left - 1
 		}
 	}
+	// nil precommits: the validator took part in the round but did not vote for the block - present, not absent
+	if h.nilRun == nil {
+		h.nilRun = map[int]int{}
+	}
+	if roll(w.Absent) {
+		h.nilRun[h.pickVal(true)] = 1 + h.r.Intn(6)
+	}
+	for vi := 0; vi < len(h.vals); vi++ {
+		if left := h.nilRun[vi]; left > 0 {
+			h.nilRun[vi] = left - 1
+			if cons := string(h.vals[vi].Key.Cons); !o.Absent[cons] {
+				o.NilVote[cons] = true
+				h.c.Count("nil_precommits", 1)
+			}
+		}
+	}
 	// evidence against a validator of a recent set
 	nEv := 0
 	if roll(w.Evidence) {
@@ -664,7 +682,7 @@ func (h *lockHist) step() bool {
 		h.logf("ops=%v absent=%d dt=%s", o.Desc, len(o.Absent), o.Dt)
 	}
 	h.prevNext = h.ch.NextVals.Copy()
-	so := world.StepOpts{Reqs: &o.Reqs, Absent: o.Absent, Evidence: o.Evidence, Dt: o.Dt}
+	so := world.StepOpts{Reqs: &o.Reqs, Absent: o.Absent, NilVote: o.NilVote, Evidence: o.Evidence, Dt: o.Dt}
 	if h.cfg.StepOpts != nil {
 		h.cfg.StepOpts(&so)
 	}
